@@ -1122,4 +1122,77 @@ theorem newGroups_ids_nodup (G0 : Nat) (t : Tree) (h : (preorder t).Nodup) : ((n
   have := (genName_inj e).2
   exact hs.1 (by rw [this]; exact hh)
 
+/-! ### the sectioning phase of `create_unbranched_segment_group_branches` -/
+
+/-- no `adjacency_list` attribute on the cell, or one that is up to date -/
+def FreshCache (cell : St) (cache : Option Adj) : Prop := cache = none ∨ cache = some (adjacency cell.segs)
+
+theorem head_mem_preorder {t : Tree} {ch : Nat × List Nat} (h : ch ∈ rest t) : ch.1 ∈ preorder t := by
+  have := (heads_sublist t).subset
+  exact this (List.mem_cons_of_mem _ (List.mem_map.2 ⟨ch, h, rfl⟩))
+
+theorem sectionPhase_spec (cell : St) (cache : Option Adj) (root lim fuel k : Nat) (t : Tree)
+    (hc : FreshCache cell cache)
+    (hnd : (cell.segs.map (·.id)).Nodup) (hr : Repr (adjacency cell.segs) t) (hroot : t.id = root)
+    (hpre : (preorder t).Nodup) (hfuel : need t ≤ fuel) (hlim : nest t + k + 1 ≤ lim)
+    (hap : ∀ x ∈ preorder t, ∃ p, actualProximal cell.segs k x = .ok p)
+    (hclash : ∀ g ∈ cell.groups, ∀ n ∈ newGroups cell.groups.length t, g.id ≠ n.id) :
+    ∃ segs', sectionPhase cell cache root lim fuel = .ok ⟨segs', cell.groups ++ newGroups cell.groups.length t⟩ ∧
+      Refines cell.segs segs' ∧ HasProx segs' root ∧ ∀ ch ∈ rest t, HasProx segs' ch.1 := by
+  have hadj : (match cache with | some a => a | none => adjacency cell.segs) = adjacency cell.segs := by
+    rcases hc with rfl | rfl <;> rfl
+  obtain ⟨p0, hp0⟩ := hap root (hroot ▸ id_mem_preorder t)
+  obtain ⟨s, hs⟩ := actualProximal_ok_getSegment hp0
+  have hsid : s.id = root := (getSegment_some hs).1
+  obtain ⟨lim', rfl⟩ : ∃ l, lim = l + 1 := ⟨lim - 1, by omega⟩
+  have hp1 : actualProximal cell.segs (lim' + 1) root = .ok p0 :=
+    actualProximal_mono _ k root p0 hp0 _ (by omega)
+  -- the root's proximal
+  obtain ⟨segs1, he1, href1, hhp1⟩ : ∃ segs1,
+      (if s.prox = none ∧ s.parent ≠ none then
+        match actualProximal cell.segs (lim' + 1) s.id with
+        | .ok p => Except.ok (setProx cell.segs root p)
+        | .error e => .error e
+      else .ok cell.segs : Except Err (List Seg)) = .ok segs1 ∧ Refines cell.segs segs1 ∧ HasProx segs1 root := by
+    by_cases hfix : s.prox = none ∧ s.parent ≠ none
+    · refine ⟨setProx cell.segs root p0, by simp [hfix, hsid, hp1], (Refines.refl _).step hnd hp1,
+        HasProx.setProx_self hs p0⟩
+    · refine ⟨cell.segs, by rw [if_neg hfix], Refines.refl _, ?_⟩
+      cases hpx : s.prox with
+      | some q => exact ⟨s, q, hs, hpx⟩
+      | none =>
+        have hpar : s.parent = none := by
+          cases hpp : s.parent with
+          | none => rfl
+          | some _ => exact absurd ⟨hpx, by simp [hpp]⟩ hfix
+        obtain ⟨k', rfl⟩ : ∃ k', k = k' + 1 := by
+          cases k with
+          | zero => simp [actualProximal] at hp0
+          | succ k' => exact ⟨k', rfl⟩
+        simp [actualProximal, hs, hpx, hpar] at hp0
+  have hname : genName cell.groups.length s.id = genName cell.groups.length t.id := by rw [hsid, hroot]
+  have hfresh : ∀ g ∈ cell.groups, g.id ≠ genName cell.groups.length t.id := by
+    intro g hg
+    exact hclash g hg ⟨genName cell.groups.length t.id, some sectionNlx, first t, []⟩ (by simp [newGroups])
+  have hidsnd := newGroups_ids_nodup cell.groups.length t hpre
+  rw [newGroups_ids, List.nodup_cons] at hidsnd
+  obtain ⟨segs2, h1, h2, h3, h4⟩ := sectD_spec hnd t fuel lim' k segs1 cell.groups
+    (freshGroup (genName cell.groups.length t.id) []) hr hfuel (by omega) href1
+    (fun ch hch => hap ch.1 (head_mem_preorder hch)) hpre (by simp [freshGroup])
+    (by
+      intro g' hg'
+      simp only [List.mem_append, List.mem_singleton] at hg'
+      rcases hg' with hg' | rfl
+      · intro hin
+        obtain ⟨n, hn, hnid⟩ := List.mem_map.1 hin
+        exact hclash g' hg' n (by simp [newGroups, hn]) hnid.symm
+      · exact hidsnd.1)
+    hidsnd.2
+  rw [freshGroup_extend] at h1
+  refine ⟨segs2, ?_, h2, h3 root hhp1, h4⟩
+  unfold sectionPhase
+  simp only [hadj, hs, he1, hname, addGroup_fresh hfresh]
+  rw [← hroot, h1]
+  simp [newGroups, freshGroup]
+
 end NmlVerif.Section
